@@ -299,49 +299,92 @@ def run(ctx, repo):
                             'reaches the caller instead of errorKlass' % (b.left.value[:60], len(specs), nargs), b.left.value[:60])
             else:
                 ctx.ok('R1', 'format arity of %r' % b.left.value[:30])
-    # ---- R6 sanity limits: each documented limit is part of a raise-guard on the velocity; the slow limit does not depend
-    # on the distance class; a fast limit written as its own test sits under its distance class
-    guards = []
+    # ---- R6 sanity limits, decided as a table over the abstract domain the guards can see: the distance class (100, 400 | 401, 1500)
+    # x the speed (0.4 too slow; 0.6, 9.9 plausible; 10.5 too fast beyond 400 m only; 11.5 too fast everywhere).  A row "fires" when some
+    # `if <test on the velocity>: raise` has a test that is true on the row and no guard on the way to it is false on the row; locals
+    # assigned once from constants / the distance (`max_velocity = 11.0 if distance <= 400 else 10.0`) are substituted first.
+    import copy as _copy
+    from ..src import decide_test, guards_of
+    counts_ = {}
     for n in ast.walk(fn):
-        if isinstance(n, ast.If) and V in {x.id for x in ast.walk(n.test) if isinstance(x, ast.Name)} and any(isinstance(r, ast.Raise) for r in n.body):
-            consts = {float(c.value) for c in ast.walk(n.test) if isinstance(c, ast.Constant) and isinstance(c.value, (int, float)) and not isinstance(c.value, bool)}
-            conds = []
-            c, p = n, getattr(n, '_parent', None)
-            while p is not None and p is not fn:
-                if isinstance(p, ast.If) and c is not p.test:
-                    conds.append((ast.unparse(p.test), c in p.body))
-                c, p = p, getattr(p, '_parent', None)
-            guards.append((n, consts, conds))
-    for lim, what in ((11.0, 'too fast up to 400 m'), (10.0, 'too fast beyond 400 m'), (0.5, 'too slow')):
-        hits = [g for g in guards if lim in g[1]]
-        if not hits:
+        if isinstance(n, (ast.Assign, ast.AugAssign, ast.AnnAssign, ast.For)):
+            for t in ([n.target] if not isinstance(n, ast.Assign) else n.targets):
+                for x in ast.walk(t):
+                    if isinstance(x, ast.Name):
+                        counts_[x.id] = counts_.get(x.id, 0) + 1
+    defs_ = {}
+    for n in ast.walk(fn):
+        if isinstance(n, ast.Assign) and len(n.targets) == 1 and isinstance(n.targets[0], ast.Name) and counts_.get(n.targets[0].id) == 1 \
+                and n.targets[0].id not in (V, DI) and all(isinstance(x, (ast.Constant, ast.Name, ast.IfExp, ast.Compare, ast.cmpop, ast.expr_context,
+                                                                         ast.BoolOp, ast.boolop, ast.UnaryOp, ast.unaryop))
+                                                           for x in ast.walk(n.value)) \
+                and {x.id for x in ast.walk(n.value) if isinstance(x, ast.Name)} <= {V, DI}:
+            defs_[n.targets[0].id] = n.value
+
+    class _Sub(ast.NodeTransformer):
+        def visit_Name(self, node):
+            if node.id in defs_ and isinstance(node.ctx, ast.Load):
+                return _copy.deepcopy(defs_[node.id])
+            return node
+
+    def sub_(t):
+        return _Sub().visit(_copy.deepcopy(t))
+    raise_ifs = [n for n in ast.walk(fn) if isinstance(n, ast.If) and any(isinstance(r, ast.Raise) for r in n.body)
+                 and V in {x.id for x in ast.walk(sub_(n.test)) if isinstance(x, ast.Name)}]
+    mentioned = {float(c.value) for n in raise_ifs for c in ast.walk(sub_(n.test)) if isinstance(c, ast.Constant)
+                 and isinstance(c.value, (int, float)) and not isinstance(c.value, bool)}
+
+    def fires(d_, v_):
+        env_ = {V: v_, DI: d_}
+        for n in raise_ifs:
+            if decide_test(sub_(n.test), env_) is not True:
+                continue
+            blocked = False
+            for t, holds in guards_of(n, fn):
+                r_ = decide_test(sub_(t), env_)
+                if r_ is not None and r_ != holds:
+                    blocked = True
+                    break
+            if not blocked:
+                return n
+        return None
+    DS, slow, okv, mid, fast = (100, 400, 401, 1500), 0.4, (0.6, 9.9), 10.5, 11.5
+    ctx.count('rows of the sanity-limit decision table', len(DS) * 5)
+    r6_bad = False
+    slow_hits = [d_ for d_ in DS if fires(d_, slow)]
+    if not slow_hits:
+        r6_bad = True
+        ctx.finding('R6', '%s::%s::sanity limit %s' % (UTILS, FN, 0.5), UTILS, fn.lineno,
+                    'the documented sanity limit 0.5 m/s (too slow) is no longer enforced by a raise of errorKlass')
+    elif len(slow_hits) < len(DS):
+        r6_bad = True
+        missing = [d_ for d_ in DS if d_ not in slow_hits]
+        ctx.finding('R6', '%s::%s::slow limit depends on the distance class' % (UTILS, FN), UTILS, fires(slow_hits[0], slow).lineno,
+                    'the too-slow limit (0.5 m/s) is only reached for some distances (not for %s m): for the other events an absurdly slow time '
+                    'is accepted' % missing, "('100', '45:10.5')")
+    else:
+        ctx.ok('R6', 'too-slow limit applies to every distance')
+    for lim, what, rows in ((11.0, 'too fast up to 400 m', [(100, fast), (400, fast)]), (10.0, 'too fast beyond 400 m', [(401, mid), (1500, mid), (401, fast), (1500, fast)])):
+        miss = [r_ for r_ in rows if fires(*r_) is None]
+        if miss and lim not in mentioned:
+            r6_bad = True
             ctx.finding('R6', '%s::%s::sanity limit %s' % (UTILS, FN, lim), UTILS, fn.lineno,
                         'the documented sanity limit %s m/s (%s) is no longer enforced by a raise of errorKlass' % (lim, what))
-            continue
-        n, consts, conds = hits[0]
-        dconds = [(t, pol) for t, pol in conds if (DI + ' <') in t or (DI + ' >') in t or V in t]
-        if lim == 0.5:
-            if DI in {x.id for x in ast.walk(n.test) if isinstance(x, ast.Name)}:
-                dconds = [(ast.unparse(n.test), True)] + dconds
-            if dconds:
-                dc = [d for d in dconds if DI in d[0]] or dconds
-                ctx.finding('R6', '%s::%s::slow limit depends on the distance class' % (UTILS, FN), UTILS, n.lineno,
-                            'the too-slow limit (0.5 m/s) is only reached when `%s` is %s: for the other events an absurdly slow time is '
-                            'accepted' % (dc[0][0], dc[0][1]), "('100', '45:10.5')")
-            else:
-                ctx.ok('R6', 'too-slow limit applies to every distance')
-        elif len(consts & {10.0, 11.0}) == 2 or DI in ast.unparse(n.test):
-            ctx.ok('R6', 'fast limit %s selected inside the test %s' % (lim, unparse(n.test)[:50]))
+        elif miss:
+            r6_bad = True
+            ctx.finding('R6', '%s::%s::fast limit %s class' % (UTILS, FN, lim), UTILS, fn.lineno,
+                        'the too-fast limit %s is not applied to its distance class: %s m at %s m/s is accepted' % (lim, miss[0][0], miss[0][1]))
         else:
-            dcond = (DI + ' <= 400') if lim == 11.0 else (DI + ' > 400')
-            ok = any((t == dcond and pol) for t, pol in dconds) or \
-                (lim == 10.0 and any(t == DI + ' <= 400' and not pol for t, pol in dconds)) or \
-                (lim == 11.0 and any(t == DI + ' > 400' and not pol for t, pol in dconds))
-            if ok:
-                ctx.ok('R6', 'fast limit %s under %s' % (lim, dcond))
-            else:
-                ctx.finding('R6', '%s::%s::fast limit %s class' % (UTILS, FN, lim), UTILS, n.lineno,
-                            'the too-fast limit %s is not tied to `%s` (conditions: %s)' % (lim, dcond, dconds))
+            ctx.ok('R6', 'fast limit %s refuses %s' % (lim, rows))
+    wrong = [(d_, v_) for d_ in DS for v_ in okv + ((mid,) if d_ <= 400 else ()) if fires(d_, v_) is not None]
+    if wrong:
+        r6_bad = True
+        n_ = fires(*wrong[0])
+        ctx.finding('R6', '%s::%s::fast limit %s class' % (UTILS, FN, 10.0 if wrong[0][1] == mid else 11.0), UTILS, n_.lineno,
+                    'a plausible speed is refused: %s m at %s m/s raises under `%s` (the 10 m/s limit is for distances beyond 400 m, 11 m/s up to '
+                    '400 m, 0.5 m/s the slow limit)' % (wrong[0][0], wrong[0][1], unparse(n_.test)[:60]))
+    elif not r6_bad:
+        ctx.ok('R6', 'no plausible speed (0.6, 9.9 m/s; 10.5 m/s up to 400 m) is refused')
     # ---- R2
     n_ret = 0
     for r in ast.walk(fn):
